@@ -421,9 +421,18 @@ func (s *Server) parseSearchScanBaseTokens(
 					return
 				}
 
+				// a clause that is rejected below gives its state back
+				putBack := func() {
+					luaSetRawGlobals(luaState, map[string]lua.LValue{
+						"ARGV": lua.LNil,
+					})
+					s.luapool.Put(luaState)
+				}
+
 				argsTbl := luaState.CreateTable(len(vs), 0)
 				for i = 0; i < nargs; i++ {
 					if vs, arg, ok = tokenval(vs); !ok || arg == "" {
+						putBack()
 						err = errInvalidNumberOfArguments
 						return
 					}
@@ -454,11 +463,13 @@ func (s *Server) parseSearchScanBaseTokens(
 						Upvalues:  make([]*lua.Upvalue, 0),
 					}
 				} else if scriptIsSha {
+					putBack()
 					err = errShaNotFound
 					return
 				} else {
 					fn, err = luaState.Load(strings.NewReader(script), "f_"+shaSum)
 					if err != nil {
+						putBack()
 						err = makeSafeErr(err)
 						return
 					}
